@@ -103,6 +103,22 @@ WebSocketMessageIOGateway :: WebSocketMessageIOGateway(const String & getPath, c
    _httpTextToWrite += "\r\n";
 }
 
+void WebSocketMessageIOGateway :: Reset()
+{
+   AbstractMessageIOGateway::Reset();
+
+   ResetHeaderReceiveState();
+   _payload.Reset();
+   _firstByteToMask    = 0;
+   _payloadBytesRead   = 0;
+   _opCode             = 0;
+   _inputClosed        = false;
+   _receivedMsg.Reset();
+   _outputBuf.Clear();
+   _outputBytesWritten = 0;
+   if (_slaveGateway()) _slaveGateway()->Reset();
+}
+
 void WebSocketMessageIOGateway :: ResetHeaderReceiveState()
 {
    /** Reset our state to receive the next frame's header */
